@@ -289,6 +289,8 @@ def next_ambient():
     _AMBIENT["calls"] += 1
     n = _AMBIENT["calls"]
     mode = 1 + (n // 6) % 4 if n % 6 == 0 else 0
+    if _AMBIENT.get("pin") is not None:
+        mode = _AMBIENT.pop("pin")        # (a caller pinned the configuration for this one call)
     if mode != _AMBIENT["mode"]:
         set_ambient(mode)
     return mode
